@@ -297,6 +297,19 @@ def build_ops():
     _op("instance.reference=", ["X", "D"], _setattr("reference"), ("_reference", "_references", "_pins", "_wire"))
     _op("instance.reference=None", ["X"], lambda x: setattr(x, "reference", None), ("_reference", "_references", "_pins", "_wire"))
     _op("instance.del_reference", ["X"], _delattr("reference"), ("_reference", "_references", "_pins", "_wire"))
+    # the live view of the very collection that is being modified, as the argument (remove everything / keep order,
+    # and the reversed view for the setters)
+    for cont, kindc, attr, bulk, wr in (("netlist", "N", "libraries", "remove_libraries_from", ("_libraries", "_netlist")),
+                                       ("library", "L", "definitions", "remove_definitions_from", ("_definitions", "_library")),
+                                       ("definition", "D", "ports", "remove_ports_from", ("_ports", "_definition", "_pins")),
+                                       ("definition", "D", "cables", "remove_cables_from", ("_cables", "_definition")),
+                                       ("definition", "D", "children", "remove_children_from", ("_children", "_parent")),
+                                       ("port", "P", "pins", "remove_pins_from", ("_pins", "_port", "_wire")),
+                                       ("cable", "C", "wires", "remove_wires_from", ("_wires", "_cable")),
+                                       ("wire", "W", "pins", "disconnect_pins_from", ("_pins", "_wire"))):
+        _op("%s.%s.ownview" % (cont, bulk), [kindc], (lambda a, b: (lambda o: getattr(o, b)(getattr(o, a))))(attr, bulk), wr)
+        _op("%s.%s=.ownview" % (cont, attr), [kindc], (lambda a: (lambda o: setattr(o, a, getattr(o, a))))(attr), wr[:1])
+        _op("%s.%s=.reversed-ownview" % (cont, attr), [kindc], (lambda a: (lambda o: setattr(o, a, reversed(getattr(o, a)))))(attr), wr[:1])
     # compound constructors given a properties dictionary (an identifier, and a user key)
     def _props(v):
         return None if v is None else {"EDIF.identifier": v, "k": [v]}
